@@ -160,6 +160,11 @@ THEOREM_CLASS_PROBLEMS = [
     ("a(i) = b(i,j) * c(j)", {"a": "d", "b": "ds", "c": "d"}),
     # spmul (`spmul_kernel_correct`): product of two sparse vectors (intersection merge)
     ("a(i) = b(i) * c(i)", {"a": "s", "b": "s", "c": "s"}),
+    # spadd (`spadd_kernel_correct`): sum of two sparse vectors (union merge: the whole lattice)
+    ("a(i) = b(i) + c(i)", {"a": "s", "b": "s", "c": "s"}),
+    # denseN (`denseN_kernel_correct`): dense element-wise kernels of every order
+    ("a(i,j) = b(i,j) + c(i,j)", {"a": "dd", "b": "dd", "c": "dd"}),
+    ("a(i,j,k) = b(i,j,k) * c(i,j,k) + 1", {"a": "ddd", "b": "ddd", "c": "ddd"}),
 ]
 
 
